@@ -1,3 +1,4 @@
-CONSTANT Want = {"C08_ModifiedSurvives", "C08_ModifiedReported", "C08_OutsidePlanUntouched"}
+CONSTANT Want = {"C08_ModifiedSurvives", "C08_ModifiedReported", "C08_OutsidePlanUntouched", "Conforms"}
+CONSTANTS Shape = "small" MaxEdits = 0 Budget = 0 LinkRepaired = TRUE
 SPECIFICATION TSpec
 CHECK_DEADLOCK FALSE
